@@ -180,7 +180,7 @@ theorem accepted_cert_cache (s : St) (cid : Nat) (c : SCfg) (hI : Inv s) (hf : c
 
 example : (load ⟨some (0, ⟨3, 0, some [0, 1]⟩), [0, 1]⟩ 1 ⟨3, 0, some [1, 2]⟩).1.cache = [1, 2] := by decide
 
-/-- Stop as the property wants it (nothing is active when the modules are cleaned up) empties the cache -/
+/-- caddy.Stop (as it is since 985d095: the stopped tls app has no successor) empties the cache -/
 theorem stopW_clears_cert_cache (s : St) (hI : Inv s) : Inv (stopW s).1 := by
   intro x
   unfold stopW
@@ -204,7 +204,7 @@ theorem stopW_clears_cert_cache (s : St) (hI : Inv s) : Inv (stopW s).1 := by
 example : (stopW ⟨some (0, ⟨3, 0, some [0, 1]⟩), [0, 1]⟩).1 = ⟨none, []⟩ ∧
     (stop ⟨some (0, ⟨3, 0, some [0, 1]⟩), [0, 1]⟩).1 = ⟨none, [0, 1]⟩ := by decide
 
-theorem stepW_inv (s : St) (cid : Nat) (x : Step) (hI : Inv s) : Inv (stepW s cid x).1 := by
+theorem step_inv (s : St) (cid : Nat) (x : Step) (hI : Inv s) : Inv (step s cid x).1 := by
   cases x with
   | load c =>
     by_cases hf : c.fault = 0
@@ -220,56 +220,29 @@ theorem stepW_inv (s : St) (cid : Nat) (x : Step) (hI : Inv s) : Inv (stepW s ci
     rw [h.1, h.2 y]; exact hI y
   | stop => exact stopW_clears_cert_cache s hI
 
-/-- C03, the statement wanted: over EVERY history of loads (accepted, or rejected at any of the
-    modelled points), dry runs and stops, the certificate cache holds exactly the certificates of the
-    running configuration — with Stop cleaning up after the context stopped being the active one -/
-theorem cert_cache_function_of_running_wanted (steps : List Step) :
-    ∀ (s : St) (cid : Nat), Inv s → Inv (runW s cid steps) := by
+/-- C03 / C01, FULL strength (since /repo 985d095): over EVERY history of loads (accepted, or rejected
+    at any of the modelled points), dry runs and stops, from every state in which it holds, the
+    process-wide certificate cache holds exactly the certificates of the running configuration -/
+theorem cert_cache_function_of_running (steps : List Step) :
+    ∀ (s : St) (cid : Nat), Inv s → Inv (run s cid steps) := by
   induction steps with
   | nil => intro s _ h; exact h
-  | cons x xs ih => intro s cid h; exact ih _ _ (stepW_inv s cid x h)
+  | cons x xs ih => intro s cid h; exact ih _ _ (step_inv s cid x h)
 
-example : runW St.init 0 [.load ⟨3, 0, some [0, 1]⟩, .load ⟨0, 5, some [2]⟩, .stop, .load ⟨1, 0, some [3]⟩] =
+example : run St.init 0 [.load ⟨3, 0, some [0, 1]⟩, .load ⟨0, 5, some [2]⟩, .stop, .load ⟨1, 0, some [3]⟩] =
     ⟨some (3, ⟨1, 0, some [3]⟩), [3]⟩ := by decide
 
-/-- FULL statement for the code as it is: ∀ steps, Inv (run St.init 0 steps). It FAILS: caddy.Stop
-    cleans the modules up while the stopping context is still caddy.ActiveContext(), the tls app
-    finds itself as its successor and leaves its certificates in the cache … -/
-theorem cert_cache_function_of_running_full_fails :
-    ∃ steps, (run St.init 0 steps).running = none ∧ 0 ∈ (run St.init 0 steps).cache :=
+/-- the statement is not vacuous — the code BEFORE 985d095 (caddy.Stop cleaned the modules up while the
+    stopping context was still caddy.ActiveContext(), the tls app found itself as its successor) broke
+    it: the stopped configuration's certificate stayed in the cache … -/
+theorem cert_cache_function_of_running_old_code_fails :
+    ∃ steps, (runOld St.init 0 steps).running = none ∧ 0 ∈ (runOld St.init 0 steps).cache :=
   ⟨[.load ⟨0, 0, some [0]⟩, .stop], by decide⟩
 
-/-- … where the next configuration finds them: it runs with a certificate it never loaded -/
-theorem stopped_configs_certificate_served_by_next_full_fails :
-    ∃ steps c, (run St.init 0 steps).running = some (2, c) ∧ 0 ∉ certsOf c ∧ 0 ∈ (run St.init 0 steps).cache :=
+/-- … where the next configuration found it: it ran with a certificate it never loaded -/
+theorem stopped_configs_certificate_served_by_next_old_code_fails :
+    ∃ steps c, (runOld St.init 0 steps).running = some (2, c) ∧ 0 ∉ certsOf c ∧ 0 ∈ (runOld St.init 0 steps).cache :=
   ⟨[.load ⟨0, 0, some [0]⟩, .stop, .load ⟨0, 0, some [1]⟩], ⟨0, 0, some [1]⟩, by decide⟩
-
-def noStop : List Step → Bool
-  | [] => true
-  | .stop :: _ => false
-  | _ :: xs => noStop xs
-
-theorem run_eq_runW_of_noStop (steps : List Step) : ∀ (s : St) (cid : Nat), noStop steps = true →
-    run s cid steps = runW s cid steps := by
-  induction steps with
-  | nil => intro _ _ _; rfl
-  | cons x xs ih =>
-    intro s cid h
-    cases x with
-    | stop => simp [noStop] at h
-    | load c => exact ih _ _ (by simpa [noStop] using h)
-    | validate c => exact ih _ _ (by simpa [noStop] using h)
-
-/-- the code as it is, under the explicit exclusion "no caddy.Stop in the history": every history of
-    loads and dry runs keeps the cache a function of the running configuration -/
-theorem cert_cache_function_of_running_partial (steps : List Step) (s : St) (cid : Nat)
-    (h : noStop steps = true) (hI : Inv s) : Inv (run s cid steps) := by
-  rw [run_eq_runW_of_noStop steps s cid h]
-  exact cert_cache_function_of_running_wanted steps s cid hI
-
-example : noStop [.load ⟨3, 0, some [0, 1]⟩, .load ⟨0, 7, some [1, 2]⟩, .validate ⟨1, 3, some [3]⟩] = true ∧
-    run St.init 0 [.load ⟨3, 0, some [0, 1]⟩, .load ⟨0, 7, some [1, 2]⟩, .validate ⟨1, 3, some [3]⟩] =
-      ⟨some (0, ⟨3, 0, some [0, 1]⟩), [0, 1]⟩ := by decide
 
 /-! ## the events app -/
 
@@ -341,7 +314,7 @@ example : (validate St.init 4 ⟨2, 3, none⟩).2.2 = [.hprov 4, .hclean 4] := b
     iff it subscribed, once, and its handler is cleaned up after that, once -/
 theorem ended_config_stopping_then_cleanup (j : Nat) (o : SCfg) :
     endOuts j o = optOut (subStopping o) (.stopping j) ++ optOut (hasHandler o) (.hclean j) ∧
-    (stop ⟨some (j, o), cache⟩).2.2 = endOuts j o ∧
+    (stopW ⟨some (j, o), cache⟩).2.2 = endOuts j o ∧
     (∀ cid c, c.fault = 0 → (load ⟨some (j, o), cache⟩ cid c).2.2 =
       provOuts cid c ++ optOut (subStarted c) (.started cid) ++ endOuts j o) := by
   refine ⟨rfl, rfl, ?_⟩
